@@ -210,6 +210,13 @@ func (in *Interp) rangeStart(v Value) Value {
 				}
 				it.ents = perm
 			}
+			if in.lem != nil && in.lem.NondetMapInsert && in.initDepth == 0 {
+				it.m = x
+				it.known = map[*mapEnt]bool{}
+				for _, e := range it.ents {
+					it.known[e] = true
+				}
+			}
 		}
 		return it
 	}
@@ -234,6 +241,21 @@ func (in *Interp) rangeNext(x *ssa.Next, it *Iter) Value {
 			continue
 		}
 		return Tuple{tTrue, cloneVal(e.k), cloneVal(e.v)}
+	}
+	if it.m != nil {
+		// Go spec: "If a map entry is created during iteration, that entry may be produced during the iteration or
+		// may be skipped." Both are explored (the produced entry comes after the ones present at the start).
+		for _, e := range it.m.ents {
+			if e.dead || it.known[e] {
+				continue
+			}
+			it.known[e] = true
+			if in.choose(2) == 1 {
+				it.ents = append(it.ents, e)
+				it.pos = len(it.ents)
+				return Tuple{tTrue, cloneVal(e.k), cloneVal(e.v)}
+			}
+		}
 	}
 	tt := x.Type().(*types.Tuple)
 	return Tuple{tFalse, in.zero(tt.At(1).Type()), in.zero(tt.At(2).Type())}
